@@ -107,7 +107,7 @@ CONTEXT_FUNC = """
 !parameters
     rx, mu, kk
 !transition-equations
-    x = rx*x{-1} + (1-rx)*mu + ex;
+    x = rx*x{-1} + (1-rx)*mu + ex !! x = target(mu);
     z = twice(kk)*x + z{-1}*0.5;
 """
 
@@ -181,6 +181,11 @@ def twice(x):
 
 def thrice(x):
     return 3 * x
+
+
+def target(x):
+    """used on the steady side of an equation only"""
+    return x
 
 
 TEMPLATES = {
@@ -328,7 +333,7 @@ class SimAdapter:
         kw = dict(t["flags"])
         ctx = None
         if t.get("context"):
-            ctx = {"twice": twice}
+            ctx = {"twice": twice, "target": target}
             kw["context"] = ctx
         if t.get("autodeclare_as"):
             kw["autodeclare_as"] = t["autodeclare_as"]
@@ -496,6 +501,9 @@ class SimAdapter:
         # variant by variant: which equations the assigned steady state fails and by how much
         view("check_steady", lambda: byv([{"failed": list(i["failed_equations"]), "discrepancies": arr(i["discrepancies"])}
                                           for i in quiet(lambda: m.check_steady(when_fails="silent", return_info=True, unpack_singleton=False))[1]]))
+        # the steady-state versions of the equations (the `!!` sides) are compiled separately from the dynamic ones
+        view("check_steady_eq", lambda: byv([{"failed": list(i["failed_equations"]), "discrepancies": arr(i["discrepancies"])}
+                                             for i in quiet(lambda: m.check_steady(equation_switch="steady", when_fails="silent", return_info=True, unpack_singleton=False))[1]]))
         if t["shocks"]:
             view("acorr", lambda: byv([[arr(x) for x in v] for v in m.get_acorr(up_to_order=1, unpack_singleton=False)]))
         if tname == "nonlin" and sim is not None:
